@@ -894,3 +894,22 @@ impl World {
         });
     }
 }
+
+impl World {
+    /// C32: serialise replica r through AutoSerde, to JSON and to a serializer that enforces length hints
+    pub fn probe_serde(&mut self, r: usize) {
+        let ev = json!({"ev":"serde","r":r+1});
+        self.guarded(r, ev, |w| {
+            use serde::Serialize;
+            let d = &w.reps[r];
+            let a = automerge::AutoSerde::from(d);
+            let js = serde_json::to_value(&a);
+            let strict = a.serialize(crate::serdex::Strict);
+            match js {
+                Ok(j) => json!({"res":"ok","json": crate::serdex::tagged(&j),
+                               "strict": match strict { Ok(()) => "ok".to_string(), Err(e) => format!("err:{}", e) }}),
+                Err(e) => json!({"res": format!("err:{}", e)}),
+            }
+        });
+    }
+}
